@@ -2,7 +2,7 @@
 EXTENDS Serde, Json
 CONSTANT Depth
 Prims0 == {P(p) : p \in {"bool", "i8", "i64", "i128", "u8", "u64", "u128", "i16", "u16", "i32", "u32", "f32", "f64", "char", "str", "unit"}}
-KeyTys == {P(p) : p \in {"str", "i32", "u64", "char", "bool", "i128", "f64", "unit"}}
+KeyTys == {P(p) : p \in {"str", "i8", "i16", "i32", "i64", "i128", "u8", "u16", "u32", "u64", "u128", "char", "bool", "f64", "unit"}}
 \* composites of exactly one more level over a set S of types
 Over(S) == {Opt(a) : a \in S} \cup {SeqT(a) : a \in S} \cup {NewT(a) : a \in S} \cup {EnumT(a) : a \in S}
            \cup {MapT(k, a) : k \in KeyTys, a \in S} \cup {StructT("S", << <<"a", a>>, <<"b", P("i64")>> >>) : a \in S}
